@@ -182,6 +182,93 @@ Definition lyds_dup_nolyds (src_meta : bool) (s : lst) (xs : list A) : lst :=
   | x :: xs' => fold_left lyds_append xs' (dup_first_meta src_meta s (lyds_append s x))
   end.
 
+(* ---------- destructive merge: lyd_merge(..., LYD_MERGE_DESTRUCT) of the instances of one (leaf-)list ----------
+   lyds_pool_add() takes the metadata and the red-black nodes of the SOURCE list's tree into the pool; the pool is
+   modelled by the NUMBER of recycled red-black nodes that are still free (pool->rbn != NULL iff pool > 0; which node is
+   recycled does not matter, RBN_RESET clears it).
+
+   lyds_additionally_reuse_rb_tree(): the target instances get a tree from recycled nodes, in sibling order
+       RBN_RESET(pool->rbn, leader); rbt = pool->rbn; pool->rbn = next free node;
+       for (iter = leader->next; same schema; iter = next_node) {
+           if (!pool->rbn) { *next = iter; return; }                    -- the pool ran dry: hand over
+           RBN_RESET(pool->rbn, iter); rb_insert_node(rbt, pool->rbn, &max); if (!max) relink iter; pool->rbn = next free node; }
+   and lyds_insert2() continues with lyds_additionally_create_rb_nodes(next) (newly allocated nodes) from the hand-over point.
+   skip = true is the seeded change C14-6 (`*next = next_node`): the instance for which no recycled node was left is
+   skipped, it stays among the siblings but never gets into the tree. *)
+Fixpoint reuse_nodes (skip : bool) (pool : nat) (rest done : list A) (t : tree) {struct rest}
+  : option (list A * tree * nat) :=
+  match rest with
+  | [] => Some (done, t, pool)
+  | x :: rest' =>
+    match pool with
+    | O =>
+      match create_nodes (if skip then rest' else rest) (if skip then done ++ [x] else done) t with
+      | Some (d, t') => Some (d, t', O)
+      | None => None
+      end
+    | S p =>
+      match rb_insert cmp t x with
+      | None => None
+      | Some t' => reuse_nodes skip p rest' (if rb_insert_max cmp t x then done ++ [x] else link done t' x) t'
+      end
+    end
+  end.
+
+(* lyds_insert2() asserts pool->rbn: the leader takes the first free node (cleared, hence black) *)
+Definition reuse_tree (skip : bool) (pool : nat) (sibs : list A) : option (list A * tree * nat) :=
+  match sibs with
+  | [] => None
+  | ld :: rest => reuse_nodes skip (Nat.pred pool) rest [ld] (Node Black Leaf ld Leaf)
+  end.
+
+(* lyds_insert2(parent, first_sibling, leader, node, pool), called when pool->rbn != NULL:
+   - no instance in the target: lyd_insert_node_ordby_schema (the node has no metadata, it went to the pool)
+   - otherwise metadata for the leader from the pool (or new), the tree from recycled nodes if there is none, then the
+     node is inserted with a recycled node if one is left, else with a new one; lyds_link_data_node *)
+Definition lyds_insert2 (skip : bool) (pool : nat) (s : lst) (x : A) : option (lst * nat) :=
+  match sibs s with
+  | [] => Some (mkLst [x] None, pool)
+  | _ :: _ =>
+    match (match rbt s with
+           | Some (Node c l k r) => Some (sibs s, Node c l k r, pool)
+           | _ => reuse_tree skip pool (sibs s)
+           end) with
+    | None => None
+    | Some (sb, t, p1) =>
+      match rb_insert cmp t x with
+      | None => None
+      | Some t' => Some (mkLst (link sb t' x) (Some t'), Nat.pred p1)
+      end
+    end
+  end.
+
+(* an instance with the same key (lyd_find_sibling_first); the model of the merge assumes that no two SOURCE instances
+   compare equal (then the duplicate-instance bookkeeping of lyd_merge_sibling_r plays no role) *)
+Definition has_key (x : A) (l : list A) : bool :=
+  existsb (fun y => match cmp y x with Eq => true | _ => false end) l.
+
+(* lyd_merge_sibling_r() over the source instances xs (source sibling order): an instance that the target already has is
+   left in the source (freed with it); a new one is unlinked and inserted with lyds_insert2() while the pool has a free
+   node, with lyd_insert_node(DEFAULT) = lyds_insert() afterwards.  pool = 0 from the start is also the merge WITHOUT
+   LYD_MERGE_DESTRUCT (xs then are the duplicates made by lyd_dup_single) and the case of a source without tree. *)
+Fixpoint lyd_merge_list (skip : bool) (pool : nat) (s : lst) (xs : list A) : option lst :=
+  match xs with
+  | [] => Some s
+  | x :: xs' =>
+    if has_key x (sibs s) then lyd_merge_list skip pool s xs'
+    else
+      match pool with
+      | O => match lyds_insert s x false with
+             | None => None
+             | Some s' => lyd_merge_list skip O s' xs'
+             end
+      | S _ => match lyds_insert2 skip pool s x with
+               | None => None
+               | Some (s', p') => lyd_merge_list skip p' s' xs'
+               end
+      end
+  end.
+
 (* lyd_unlink(node) for the instance at sibling position i: lyds_unlink() then lyd_unlink_ignore_lyds().
        rbt = lyds_get_rb_tree( *leader, &root_meta);
        if (!root_meta || LYD_NODE_IS_ALONE( *leader)) return;        -- an alone leader keeps its metadata and tree
@@ -284,6 +371,11 @@ Arguments dup_first_meta {A}.
 Arguments lyds_dup_rest {A}.
 Arguments lyds_dup {A}.
 Arguments lyds_dup_nolyds {A}.
+Arguments reuse_nodes {A}.
+Arguments reuse_tree {A}.
+Arguments lyds_insert2 {A}.
+Arguments has_key {A}.
+Arguments lyd_merge_list {A}.
 Arguments Ins {A} x.
 Arguments Rem {A} i.
 Arguments rb_step {A}.
